@@ -1534,6 +1534,121 @@ theorem unknown_in_contour_rejected (law : ReadsNumerals rd) {d : Doc} {pre post
     accepted (parseGlif rd (Spec.flatten d)) = false :=
   outline_child_rejected law h hk (.contourChild cas cpre (.elem e) cpost hst hkids (.unknown e hn))
 
+/-- the rules of `Spec.itemCheck` that correspond to a recorded finding, i.e. where norad accepts what `judge` flags:
+    `container-attrs` (`container-attributes-unexamined`), `ident-empty` (`empty-identifier-accepted`), `hex-plus`
+    (`hex-plus-sign-accepted`).  At document level two more clauses of `judge` are findings: `dup-note` when the earlier note
+    has no text (`repeated-note-after-empty-note`) and `objlib-entry` (`unmatched-object-lib-not-dictionary`). -/
+def findingItemRules : List String := ["container-attrs", "ident-empty", "hex-plus"]
+
+/-- **every rule `Spec.itemCheck` reports for a body item that is not an outline, other than a finding rule, makes the parser
+    reject the document** (first such item after a clean prefix): `unknown-element`, `v1-element`, `lib`, `attr-syntax` and
+    all the element rules of `element_rule_rejected` -/
+theorem body_item_rule_rejected (law : ReadsNumerals rd) (lawT : ReadsTrimmed rd) {d : Doc} {pre post : List Item} {bad : Item}
+    {ver : Nat} (h : CleanPrefix rd d pre bad post ver) (hsh : IShaped bad)
+    (hno : ∀ a sc kids, bad ≠ .outline a sc kids) (hne : ∀ e, bad = .elem e → e.name ≠ sOutline)
+    {r : String} (hr : r ∈ (itemCheck rd ver bad).1) (hnf : r ∉ findingItemRules) :
+    accepted (parseGlif rd (Spec.flatten d)) = false := by
+  have hnf' : r ∉ findingValueRules := by
+    intro hm
+    simp only [findingValueRules, List.mem_cons, List.not_mem_nil, or_false] at hm
+    apply hnf
+    rcases hm with rfl | rfl <;> decide
+  have hca : r ≠ "container-attrs" := by intro e; subst e; exact hnf (by decide)
+  cases bad with
+  | comment => simp [itemCheck] at hr
+  | outline a sc kids => exact absurd rfl (hno a sc kids)
+  | note a kids =>
+    simp only [itemCheck] at hr
+    obtain ⟨x, hx, hrx⟩ := mem_merge hr
+    simp only [List.mem_cons, List.not_mem_nil, or_false] at hx
+    rcases hx with rfl | rfl
+    · simp only at hrx
+      cases a with
+      | none => simp [containerAttrs] at hrx; exact absurd hrx hca
+      | some as => cases as <;> simp [containerAttrs] at hrx; exact absurd hrx hca
+    · simp only at hrx
+      by_cases hv : ver = 1
+      · exact rejected_of_bodyBad law h (.hard _ (.v1Note a kids hv))
+      · simp [hv] at hrx
+  | lib a v inner =>
+    simp only [itemCheck] at hr
+    obtain ⟨x, hx, hrx⟩ := mem_merge hr
+    simp only [List.mem_cons, List.not_mem_nil, or_false] at hx
+    rcases hx with rfl | rfl
+    · simp only at hrx
+      cases a with
+      | none => simp [containerAttrs] at hrx; exact absurd hrx hca
+      | some as => cases as <;> simp [containerAttrs] at hrx; exact absurd hrx hca
+    · simp only at hrx
+      refine rejected_of_bodyBad law h (.hard _ (.libNotDict a v inner ?_ hsh))
+      intro dd hd; subst hd; simp at hrx
+  | elem e =>
+    obtain ⟨hndA, hsc⟩ := hsh
+    simp only [itemCheck] at hr
+    by_cases hb : bodyNames.contains e.name = true
+    · simp only [hb, if_true] at hr
+      have hnn : e.name ≠ sNote := by intro hh; rw [hh] at hb; exact absurd hb (by decide)
+      simp only [hnn, if_false] at hsc
+      cases ha : e.attrs with
+      | none => exact rejected_of_bodyBad law h (.attrSyntax e hb ha)
+      | some as =>
+        by_cases hv1 : r = "v1-element"
+        · subst hv1
+          -- `v1-element` comes from the last clause of `elemCheck` only
+          obtain ⟨tbl, ht⟩ := attrTable_body hb
+          unfold elemCheck at hr
+          simp only [ht, ha] at hr
+          obtain ⟨x, hx, hrx⟩ := mem_merge hr
+          rcases List.mem_append.1 hx with hx | hx
+          · obtain ⟨at', _, rfl⟩ := List.mem_map.1 hx
+            exfalso
+            revert hrx
+            cases hf : tbl.find? (fun t => t.1.toList = at'.1) with
+            | none => simp
+            | some p =>
+              obtain ⟨nm, k⟩ := p
+              simp only
+              split
+              · simp
+              · intro hrx
+                cases k <;> simp only [valueCheck] at hrx <;> repeat' split at hrx
+                all_goals simp at hrx
+          · simp only [List.mem_cons, List.not_mem_nil, or_false] at hx
+            rcases hx with rfl | rfl | rfl
+            · simp at hrx
+            · simp only at hrx
+              split at hrx
+              · repeat' split at hrx
+                all_goals simp at hrx
+              · cases hrx
+            · simp only at hrx
+              split at hrx
+              · rename_i hcond
+                simp only [beq_iff_eq] at hcond
+                exact rejected_of_bodyBad law h (.hard _ (.v1Element e hcond.1 hcond.2 hsc))
+              · cases hrx
+        · obtain ⟨tbl, ht⟩ := attrTable_body hb
+          exact rejected_of_bodyBad law h (.elem e as hb ha (elemCheck_elemBad lawT ht ha (hndA as ha) hr hnf' hv1))
+    · simp only [hb, Bool.false_eq_true, if_false] at hr
+      by_cases hn : e.name = sNote
+      · simp only [hn, if_true] at hr
+        obtain ⟨x, hx, hrx⟩ := mem_merge hr
+        simp only [List.mem_cons, List.not_mem_nil, or_false] at hx
+        rcases hx with rfl | rfl
+        · simp only at hrx
+          cases ha : e.attrs with
+          | none => simp [containerAttrs, ha] at hrx; exact absurd hrx hca
+          | some as => cases as <;> simp [containerAttrs, ha] at hrx; exact absurd hrx hca
+        · simp only at hrx
+          by_cases hv : ver = 1
+          · exact rejected_of_bodyBad law h (.v1NoteElem e hv hn)
+          · simp [hv] at hrx
+      · simp only [hn, if_false] at hr
+        by_cases hl : e.name = sLib
+        · exact rejected_of_bodyBad law h (.libElem e hl)
+        · have hb' : bodyNames.contains e.name = false := by simpa using hb
+          exact rejected_of_bodyBad law h (.hard _ (.unknownElement e hb' hn hl (hne e rfl)))
+
 /-! ### non-vacuity: one concrete document per kind of position -/
 
 def R1 : Str → Option Nat := fun _ => some 0
